@@ -1,3 +1,127 @@
 import QtyModel.Serde
+import QtyModel.Lemmas.ListFind
+import QtyModel.Lemmas.Digits
+/-
+  C17 — Serialisation round-trips values exactly.  (partial: serde_derive / serde_json are modelled)
+
+  Property theorems only, on the serde data-model tree.  The amount codec is a
+  parameter: for the decimal back-end it is `str ∘ Display` / `FromStr`
+  (`dec_amount_roundtrip`), for the binary back-end it is the JSON number, whose text
+  is produced by serde_json and checked in the correspondence run with an exactly
+  rounding parser.
+-/
 namespace Qty.C17
+open Qty Qty.Serde Qty.Fmt Qty.Digits
+
+/-- units serialise as their variant names -/
+theorem unit_ser_is_variant_name (u : UnitDef) : serUnit u = .str u.ident := rfl
+
+/-- a unit read back is the unit itself (variant identifiers are distinct) -/
+theorem de_ser_unit (units : List UnitDef) (hn : (units.map (·.ident)).Nodup) (i : Nat) (u : UnitDef)
+    (hi : units[i]? = some u) : deUnit units (serUnit u) = some i := by
+  show units.findIdx? (fun x => x.ident == u.ident) = some i
+  induction units generalizing i with
+  | nil => simp at hi
+  | cons a as ih =>
+    simp only [List.map_cons, List.nodup_cons] at hn
+    cases i with
+    | zero =>
+      simp only [List.getElem?_cons_zero, Option.some.injEq] at hi
+      subst hi
+      simp [List.findIdx?_cons]
+    | succ i =>
+      simp only [List.getElem?_cons_succ] at hi
+      have hu : u ∈ as := List.mem_of_getElem? hi
+      have hne : a.ident ≠ u.ident := by
+        intro e
+        exact hn.1 (e ▸ List.mem_map_of_mem hu)
+      have : (a.ident == u.ident) = false := by simp [hne]
+      simp [List.findIdx?_cons, this, ih hn.2 i hi]
+
+/-- serialising any value and deserialising the result gives back the identical unit and the
+identical amount, for every amount codec that round-trips -/
+theorem de_ser {A : Type} (kind : QtyKind) (units : List UnitDef) (hn : (units.map (·.ident)).Nodup)
+    (hk : kind = .single → units.length = 1)
+    (serAmt : A → JL) (deAmt : JL → Option A) (hrt : ∀ a, deAmt (serAmt a) = some a)
+    (a : A) (i : Nat) (u : UnitDef) (hi : units[i]? = some u) :
+    deQty kind units deAmt (serQty kind (serAmt a) u) = some (a, i) := by
+  have hu := de_ser_unit units hn i u hi
+  cases kind with
+  | single =>
+    have hl := hk rfl
+    have hi0 : i = 0 := by
+      have := (List.getElem?_eq_some_iff.mp hi).1
+      omega
+    subst hi0
+    simp [serQty, deQty, hrt]
+  | noRef => simp [serQty, deQty, hrt, hu]
+  | withRef => simp [serQty, deQty, hrt, hu]
+
+/-- values that differ in unit or amount have different serialisations -/
+theorem ser_injective {A : Type} (kind : QtyKind) (units : List UnitDef) (hn : (units.map (·.ident)).Nodup)
+    (hk : kind = .single → units.length = 1)
+    (serAmt : A → JL) (deAmt : JL → Option A) (hrt : ∀ a, deAmt (serAmt a) = some a)
+    (a b : A) (i j : Nat) (u v : UnitDef) (hi : units[i]? = some u) (hj : units[j]? = some v)
+    (h : serQty kind (serAmt a) u = serQty kind (serAmt b) v) : a = b ∧ i = j := by
+  have h1 := de_ser kind units hn hk serAmt deAmt hrt a i u hi
+  have h2 := de_ser kind units hn hk serAmt deAmt hrt b j v hj
+  rw [h, h2] at h1
+  simpa [eq_comm] using h1
+
+/-- `decOfText` after the sign has been split off -/
+def decCore (neg : Bool) (t : Text) : Option Dec :=
+  let ip := t.takeWhile (· != 46)
+  let rest := t.dropWhile (· != 46)
+  let fp := match rest with
+    | 46 :: r => r
+    | _ => []
+  if ip.isEmpty || !(ip.all Case.isDigit) || !(fp.all Case.isDigit) || (rest.length = 1) then none
+  else
+    let c : Int := (num (ip ++ fp) : Nat)
+    some ⟨if neg then -c else c, fp.length⟩
+
+theorem decCore_eq (neg : Bool) (t : Text) :
+    decCore neg t = (splitDigits t).map (fun p =>
+      let c : Int := (num (p.1 ++ p.2) : Nat)
+      (⟨if neg then -c else c, p.2.length⟩ : Dec)) := by
+  unfold decCore splitDigits
+  dsimp only
+  split_ifs <;> first | rfl | contradiction
+
+theorem decOfText_eq (t : Text) :
+    decOfText t = (splitDigits (stripSign t).2).map (fun p =>
+      let c : Int := (num (p.1 ++ p.2) : Nat)
+      (⟨if (stripSign t).1 then -c else c, p.2.length⟩ : Dec)) := by
+  rw [← decCore_eq]; rfl
+
+/-- decimal back-end: the `Display` text of a `Decimal` parses back to the identical value
+(coefficient AND number of fractional digits), for every well-formed `Decimal` -/
+theorem dec_amount_roundtrip (d : Dec) (h : d.nfd ≤ 18) : decOfText (decText d) = some d := by
+  obtain ⟨ip, fp, hs, hnum, hlen, hns⟩ := absText_split d
+  rw [decOfText_eq]
+  by_cases hc : d.coeff < 0
+  · have e : decText d = 45 :: decAbsText none d := by simp [decText, hc]
+    rw [e, stripSign_minus]
+    simp only [hs, Option.map_some, hnum, hlen, if_true]
+    congr 1
+    cases d with
+    | mk c n =>
+      simp only at hc ⊢
+      congr 1
+      omega
+  · have e : decText d = decAbsText none d := by simp [decText, hc]
+    rw [e, stripSign_nosign _ hns]
+    simp only [hs, Option.map_some, hnum, hlen]
+    congr 1
+    cases d with
+    | mk c n =>
+      simp only at hc ⊢
+      congr 1
+      simp; omega
+
+/-- non-vacuity -/
+example : render (serQty .withRef (.str (decText ⟨-125, 2⟩)) { ident := [77], name := [77], symbol := [109], pfx := none, scale := none, doc := none })
+    = [123, 34, 97, 109, 111, 117, 110, 116, 34, 58, 34, 45, 49, 46, 50, 53, 34, 44, 34, 117, 110, 105, 116, 34, 58, 34, 77, 34, 125] := by
+  decide +kernel   -- {"amount":"-1.25","unit":"M"}
+
 end Qty.C17
